@@ -583,8 +583,8 @@ class NetworkTopologyStrategy(ReplicationStrategy):
 
     def make_token_replica_map(self, token_to_host_owner, ring):
         dc_rf_map = dict(
-            (dc, full_replicas) for dc, full_replicas in self.dc_replication_factors.items()
-            if full_replicas > 0)
+            (dc, rf) for dc, rf in self.dc_replication_factors_info.items()
+            if rf.full_replicas > 0)
 
         # build a map of DCs to lists of indexes into `ring` for tokens that
         # belong to that DC
@@ -620,12 +620,18 @@ class NetworkTopologyStrategy(ReplicationStrategy):
                     index += 1
                 dc_to_current_index[dc] = index
 
-                replicas_remaining = dc_rf_map[dc]
-                replicas_this_dc = 0
-                skipped_hosts = []
-                racks_placed = set()
+                # Cassandra places all replicas of the DC, full and transient, and the last ones
+                # it places are the transient ones; only the full replicas are reported
+                rf = dc_rf_map[dc]
                 racks_this_dc = dc_racks[dc]
                 hosts_this_dc = len(hosts_per_dc[dc])
+                replicas_remaining = min(rf.all_replicas, hosts_this_dc)
+                transients = max((rf.transient_replicas or 0) - (rf.all_replicas - replicas_remaining), 0)
+                # with fewer racks than replicas every rack is still used once, and the
+                # difference is filled by the first nodes met
+                acceptable_rack_repeats = rf.all_replicas - len(racks_this_dc)
+                placed_this_dc = set()
+                racks_placed = set()
 
                 for token_offset_index in range(index, index+num_tokens):
                     if token_offset_index >= len(token_offsets):
@@ -633,29 +639,22 @@ class NetworkTopologyStrategy(ReplicationStrategy):
 
                     token_offset = token_offsets[token_offset_index]
                     host = token_to_host_owner[ring[token_offset]]
-                    if replicas_remaining == 0 or replicas_this_dc == hosts_this_dc:
+                    if replicas_remaining == 0:
                         break
 
-                    if host in replicas:
+                    if host in placed_this_dc or host in replicas:
                         continue
 
-                    if host.rack in racks_placed and len(racks_placed) < len(racks_this_dc):
-                        if host not in skipped_hosts:
-                            skipped_hosts.append(host)
-                        continue
+                    if host.rack in racks_placed:
+                        if acceptable_rack_repeats <= 0:
+                            continue
+                        acceptable_rack_repeats -= 1
 
-                    replicas.append(host)
-                    replicas_this_dc += 1
-                    replicas_remaining -= 1
                     racks_placed.add(host.rack)
-
-                    if len(racks_placed) == len(racks_this_dc):
-                        for host in skipped_hosts:
-                            if replicas_remaining == 0:
-                                break
-                            replicas.append(host)
-                            replicas_remaining -= 1
-                        del skipped_hosts[:]
+                    placed_this_dc.add(host)
+                    if replicas_remaining > transients:
+                        replicas.append(host)
+                    replicas_remaining -= 1
 
         return replica_map
 
